@@ -95,9 +95,11 @@ class CheckC10(core.Check):
                 descs.append(("tr", name, 0, rnd.getrandbits(24)))
                 descs.append(("tr", name, 1, rnd.getrandbits(24)))
         for dh in DHS:
-            for pat in ("XX", "NN", "KK", "NK", "K", "IK", "X1X1") if not quick else ("XX", "NN", "KK", "NK"):
+            for pat in ("XX", "NN", "KK", "NK", "K", "IK", "X1X1", "X1K") if not quick else ("XX", "NN", "KK", "NK", "X1X1"):
                 for role in "ir":
                     for what in ("s", "rs", "prologue", "psk", "pskname"):
+                        if quick and pat == "X1X1" and what != "pskname":
+                            continue  # the four-message patterns matter for the psk positions (psk4 exists only there)
                         descs.append(("build", pat, dh, role, what, rnd.getrandbits(24)))
         return descs
 
@@ -177,6 +179,14 @@ class CheckC10(core.Check):
                 c.party(pid, role, nm, rng="script:1", rec="-", **kk)
                 c.op("build", pid)
                 c.party(qid, "r" if role == "i" else "i", nm, rng="script:2", rec="-", **pq)
+                c.op("build", qid)
+                c.op("pingpong", a=pid if role == "i" else qid, b=qid if role == "i" else pid, max=6, plen=3, seed="pn")
+                # the same name with no PSK supplied at all: every message up to the one that needs it, then an error
+                pid, qid = "P%d" % n, "Q%d" % n
+                n += 1
+                c.party(pid, role, nm, rng="script:1", rec="-", **dict(kw, psks={}))
+                c.op("build", pid)
+                c.party(qid, "r" if role == "i" else "i", nm, rng="script:2", rec="-", **dict(peer_kw, psks={}))
                 c.op("build", qid)
                 c.op("pingpong", a=pid if role == "i" else qid, b=qid if role == "i" else pid, max=6, plen=3, seed="pn")
         else:
